@@ -218,6 +218,11 @@ func MatchesClosure(T, V *abi.Type) bool {
 	} else if V == nil || !V.IsClosure() {
 		return false
 	}
+	// a defined func type is identical only to itself; descriptors that
+	// differ can only denote one type when both are unnamed (reflect.FuncOf)
+	if (T.TFlag|V.TFlag)&abi.TFlagNamed != 0 {
+		return false
+	}
 	return T.StructType().Fields[0].Typ == V.StructType().Fields[0].Typ
 }
 
